@@ -93,6 +93,15 @@ pub enum Publish {
     Replace(Box<ObjSpec>),
     /// Served but not listed on the manifest.
     Unlisted,
+    /// Listed and served, but re-framed as BER that is not DER: the outermost
+    /// SEQUENCE uses the indefinite length form (nothing covered by a
+    /// signature changes; the manifest lists the hash of the re-framed
+    /// bytes). Signed objects (manifest, ROA, ASPA, GBR) in this form are
+    /// accepted by routinator unless it runs with `strict`; certificates and
+    /// CRLs are always decoded as DER and are rejected.
+    Ber,
+    /// Like `Ber`, with a non-minimal (over-long) definite length instead.
+    BerLongLen,
 }
 
 impl Publish {
@@ -172,7 +181,8 @@ pub struct PointVersion {
     pub ee_not_after: i64,
     #[serde(default, skip_serializing_if = "Fault::is_none")]
     pub mft_fault: Fault,
-    /// `Normal`, `Missing` (no manifest served) or `Corrupt` (a stray byte
+    /// `Normal`, `Missing` (no manifest served), `Ber` / `BerLongLen` (BER
+    /// re-framing, accepted in lax mode only) or `Corrupt` (a stray byte
     /// appended — routinator still decodes and accepts such a manifest; use
     /// `mft_fault = Garbage` for an undecodable one).
     #[serde(default, skip_serializing_if = "Publish::is_normal")]
